@@ -25,6 +25,12 @@ CHECKS = {
  "C07": dict(level="exploration", ref="DESIGN.md §5 C07",
    technique="deterministic simulation: seeded histories vs wrapping/saturating reference model; seeded thread schedules with atomics as scheduling points",
    text="Seeded search: boundary-valued operation histories against an executable reference model (sequential), and 2-8 simulated threads incrementing clones under a seeded scheduler that interleaves at every atomic operation (lost-update oracle). Sampling over histories and schedules; exact replay from a seed/schedule file."),
+ "C08": dict(level="exploration", ref="DESIGN.md §5 C08",
+   technique="deterministic simulation: seeded random/sticky/PCT thread schedules at lock/condvar/spawn/join/atomic granularity with virtual timers, spurious wake-ups and clock jitter; deadlock (wait-for graph), no-time-scope and thread-lifecycle oracles",
+   text="2-3 simulated user threads plus the library's ticker threads run short programs of public calls on shared handles; the scheduler owns every lock, condvar, spawn and join decision and the clock, so the three-party update()/ticker-slot/join interleaving is produced on demand and replayed exactly; stop calls must return without the virtual clock moving for intervals from 1 ms to 10 h; a second mode checks that the ticker ticks, that manual ticks do not advance the spinner and that it stops on finish/disable/replace/drop. Sampling of schedules; exact replay from seed or schedule file."),
+ "C18": dict(level="fault_enumeration", ref="DESIGN.md §5 C18",
+   technique="deterministic simulation with fault injection: for every sampled history every terminal-call index k fails (once / from then on) with rotating io::ErrorKind; differential against the fault-free run",
+   text="Histories are sampled from the seed; for each history the fault index dimension is enumerated completely: every one of the N terminal calls of the fault-free run is failed, in two modes. No call may panic on any simulated thread, getters must equal the fault-free run after every call, io::Result-returning calls must report the error, and everything is exercised and dropped afterwards (poisoned locks show there)."),
  "C17": dict(level="exploration", ref="DESIGN.md §5 C17",
    technique="deterministic simulation with fault injection: simulated reader/writer/stream with seeded short/EINTR/EAGAIN/EIO/Pending/EOF plan, call-by-call differential against an unwrapped twin + position model; seeded rayon split driver with leaves on simulated threads",
    text="Seeded search over call sequences and fault plans on simulated I/O objects behind the adaptors' existing Read/BufRead/Write/Seek/tokio Async*/Stream/Iterator/rayon plumbing seams. Every call is compared with an unwrapped twin that follows the same seeded behaviour plan and position() with an exact transfer count. Sampling; exact replay from the scenario file."),
